@@ -42,6 +42,14 @@ class PackageTracker(Monitor):
         self.dyadic = bool(run.scenario.get("dyadic"))
         self.arrival = {}  # vid -> (mid, j_exec) update at which the order became live at the exchange
         self.queue_ahead = {}  # vid -> size shown at own price on the joined ladder in the executed-against book
+        self.pre_update = {}  # vid -> (persistence, remaining, simulated market version) right before an update request
+
+    def on_request_before(self, kind, txn, order, a, k):
+        if kind == "UPDATE":
+            try:
+                self.pre_update[order._vid] = (getattr(order.order_type, "persistence_type", None), order.size_remaining, order.simulated.market_version)
+            except Exception:
+                pass
 
     def delay_for(self, kind, mid):
         cfg = self.run.scenario.get("cfg", {})
@@ -171,6 +179,23 @@ class LatencyMonitor(Monitor):
                     want = {"CANCEL": "CANCELLING", "UPDATE": "UPDATING", "REPLACE": "REPLACING"}[rec["kind"]]
                     if st not in (want, "EXECUTION_COMPLETE"):
                         self.violate(self.P, "C07.not-early", "in-flight-status-changed-early:%s" % rec["kind"], status=st)
+                    if rec["kind"] == "UPDATE" and is_limit(o) and b <= 0:
+                        # until the update takes effect the order must behave as before: a LAPSE order still lapses on a
+                        # suspension with a version change, a PERSIST order does not
+                        old = self.t.pre_update.get(o._vid, (None, 0, None))[0]
+                        stt = self.run.state(mid, j) if j is not None else None
+                        seen = rec.setdefault("susp_seen", {})
+                        ver_before = rec.setdefault("ver_before", {}).get(o._vid, self.t.pre_update.get(o._vid, (None, 0, None))[2])
+                        rec["ver_before"][o._vid] = o.simulated.market_version
+                        if old is not None and stt is not None and stt["st"] == "SUSPENDED" and stt["ver"] != ver_before and o._vid not in seen and not (now == rec["t_req"] and rec["req_index"] == j):
+                            seen[o._vid] = True
+                            lapsed = o.simulated.size_lapsed > 0
+                            had = self.t.pre_update.get(o._vid, (None, 0, None))[1] > 0 and o.simulated.size_matched < o.order_type.size
+                            if had and old == "LAPSE" and not lapsed and o.size_remaining > 0:
+                                self.violate(self.P, "C07.not-early", "update-of-persistence-effective-before-latency", order=o._vid, old=old, new=o.order_type.persistence_type, elapsed=elapsed, delay=rec["d"])
+                            if had and old in ("PERSIST", "MARKET_ON_CLOSE") and lapsed:
+                                self.violate(self.P, "C07.not-early", "update-of-persistence-effective-before-latency", order=o._vid, old=old, new=o.order_type.persistence_type, elapsed=elapsed, delay=rec["d"])
+                            self.res.probes["c07.suspension_inside_update_latency"] += 1
 
     def on_strategy_call(self, strategy, market, kind):
         un = to_ms(datetime.datetime.utcnow())
